@@ -111,9 +111,8 @@ def frontierId (W : VM P L) : List (Entry P) → Nat
 def upd {α : Type} (f : Nat → α) (a : Nat) (v : α) : Nat → α := fun x => if x = a then v else f x
 
 /-- per-account chains after appending the transactions in order -/
-def pushAll (views : Nat → List (Tx P)) : List (Tx P) → Nat → List (Tx P)
-  | [] => views
-  | t :: ts => pushAll (upd views t.1.acct (views t.1.acct ++ [t])) ts
+def pushAll (views : Nat → List (Tx P)) (ts : List (Tx P)) (a : Nat) : List (Tx P) :=
+  views a ++ ts.filter (fun t => t.1.acct == a)
 
 /-- confirmed account chains (the stable account databases) -/
 def conf (W : VM P L) : List (Entry P) → Nat → List (Tx P)
